@@ -500,10 +500,78 @@ def run(repo, chk):
                    us[0][3] is not None and ("%s_name" % which) in unparse(us[0][3]), "R-C14-5",
                    "Link.%s setter un-registers the old %s and registers the new one" % (which, which), loc(st),
                    found=[(u[0], unparse(u[3])) for u in us])
+    # R-C14-5s: abstract execution of both setters over every configuration of (start, end, new node) drawn from two nodes:
+    # afterwards a node's usage record holds the link iff the link starts or ends there
+    for which in ("start_node", "end_node"):
+        st = repo.func(BASE, "Link.%s" % which, kind="setter")
+        param = st.args.args[1].arg
+        for s0 in "XY":
+            for e0 in "XY":
+                for new in "XY":
+                    res = abstract_setter(st, which, param, s0, e0, new)
+                    ends = {new, e0} if which == "start_node" else {s0, new}
+                    want = {n: (n in ends) for n in "XY"}
+                    chk.expect(res == want, "R-C14-5s",
+                               "Link.%s = %s on a link %s->%s leaves usage records exactly at the link's end nodes" % (which, new, s0, e0), loc(st),
+                               "abstract execution of the setter: usage[node] must contain the link iff the link starts or ends at node "
+                               "(get_links_for_node, remove_node's refusal and the mass balance rows read these records)", expected=want, found=res)
+    chk.floor("R-C14-5s", 16)
     chk.floor("R-C14-5", 14 + 2 + 14 + 3 + 4)
 
 
+
+def abstract_setter(fn, which, param, s0, e0, new):
+    """execute a Link end-node setter on abstract state: ends (s0, e0), new node `new`; usage[n] = link recorded at node n.
+    Only the statement forms the setters use are interpreted; anything else is an extraction error (never a guess)."""
+    from ..src import ExtractError
+    st = {"start": s0, "end": e0}
+    usage = {n: (n in (s0, e0)) for n in "XY"}
+
+    def val(e):
+        t = unparse(e)
+        if t in ("self.start_node_name", "self._start_node.name", "self.start_node.name"):
+            return st["start"]
+        if t in ("self.end_node_name", "self._end_node.name", "self.end_node.name"):
+            return st["end"]
+        if t in ("%s.name" % param, "%s._name" % param):
+            return new
+        raise ExtractError("Link.%s setter: cannot evaluate %s" % (which, t))
+
+    def test(t):
+        if isinstance(t, ast.Constant) and isinstance(t.value, bool):
+            return t.value
+        if isinstance(t, ast.Compare) and len(t.ops) == 1 and isinstance(t.ops[0], (ast.Eq, ast.NotEq, ast.Is, ast.IsNot)):
+            a, b = val(t.left), val(t.comparators[0])
+            return (a == b) if isinstance(t.ops[0], (ast.Eq, ast.Is)) else (a != b)
+        if isinstance(t, ast.BoolOp):
+            vs = [test(v) for v in t.values]
+            return all(vs) if isinstance(t.op, ast.And) else any(vs)
+        if isinstance(t, ast.UnaryOp) and isinstance(t.op, ast.Not):
+            return not test(t.operand)
+        raise ExtractError("Link.%s setter: cannot evaluate test %s" % (which, unparse(t)))
+
+    def run_(body):
+        for s_ in body:
+            if isinstance(s_, ast.Expr) and isinstance(s_.value, ast.Constant):
+                continue
+            if isinstance(s_, ast.If):
+                run_(s_.body if test(s_.test) else s_.orelse)
+            elif isinstance(s_, ast.Expr) and isinstance(s_.value, ast.Call) and last_attr(s_.value) in ("remove_usage", "add_usage") and "_node_reg" in unparse(s_.value.func):
+                n = val(s_.value.args[0])
+                usage[n] = last_attr(s_.value) == "add_usage"
+            elif isinstance(s_, ast.Assign) and unparse(s_.targets[0]) in ("self._start_node", "self._end_node"):
+                v = s_.value
+                inner = v.slice if isinstance(v, ast.Subscript) else v
+                tgt = new if unparse(inner) in (param, "%s.name" % param) else val(inner)
+                st["start" if unparse(s_.targets[0]) == "self._start_node" else "end"] = tgt
+            else:
+                raise ExtractError("Link.%s setter: statement not interpreted: %s" % (which, norm(s_)))
+    run_(fn.body)
+    return usage
+
 WITNESSES = [
+    dict(name="end-setter-unconditional-remove", file=BASE, old="        if self.end_node_name != self.start_node_name:  # otherwise the start of the link still uses that node\n            self._node_reg.remove_usage(self.end_node_name,",
+         new="        if True:\n            self._node_reg.remove_usage(self.end_node_name,", rule="R-C14-5s"),
     dict(name="drop-discard-tanks", file=MODEL, old="            self._tanks.discard(key)\n", new="", rule="R-C14-3"),
     dict(name="new-subset-not-discarded", file=MODEL, old='        "_gpvs",\n        "_valves",', new='        "_gpvs",', rule="R-C14-3"),
     dict(name="mutation-before-refusal", file=MODEL,
@@ -514,7 +582,7 @@ WITNESSES = [
     dict(name="tank-curve-wrong-tag", file=ELEM, old="self._curve_reg.add_usage(name, (self._name, 'Tank'))", new="self._curve_reg.add_usage(name, (self._name, 'tank'))", rule="R-C14-1"),
     dict(name="inlet-from-link-reg", file=MODEL, old="link_data = self._node_reg.get_usage(node_name)", new="link_data = self._link_reg.get_usage(node_name)", rule="R-C14-5"),
     dict(name="end-node-setter-no-remove", file=BASE,
-         old="        self._node_reg.remove_usage(self.end_node_name, (self._link_name, self.link_type))\n", new="", rule="R-C14-5"),
+         old="            self._node_reg.remove_usage(self.end_node_name, (self._link_name, self.link_type))\n", new="            pass\n", rule="R-C14-5"),
     dict(name="refusal-swallowed", file=MODEL, old="            return link\n        except KeyError:", new="            return link\n        except (KeyError, RuntimeError):", rule="R-C14-4"),
     dict(name="rename-local-preserving", file=MODEL, old="            node = self._data.pop(key)\n            self._junctions.discard(key)",
          new="            node = self._data.pop(key)\n            self._junctions.discard(key)\n            _n = node", silent=True),
